@@ -15,6 +15,8 @@ def run(tier, seed):
                  ["commonmark", "cm+table+strike"], "all concatenations of <= k pieces over {*, **, _, ~~, ~, a, space, [, ](x), b}", "delimiter universe")
     from .c17 import add_cons
     add_cons(rep, "C02")
+    from .c17 import add_list
+    add_list(rep, "C02")
     import contracts.textjoin as TJ
     deductive(rep, "C02", TJ.FUNCS, "contracts.textjoin")
     rep.explanation = (
